@@ -130,8 +130,11 @@ def uri_sweep(nseg, limit=None, module_directory=False, seed=0):
         outside = os.path.join(root, "secret")
         for dirspec in (tdir,):
             lk = TemplateLookup(directories=[dirspec], **kw)
-            for lead in ("/", "\\", "\\/", "/\\", "/\\/", "\\\\/", "//\\/", "\\/\\/", "\\//"):
-                for tail in (outside.lstrip("/"), outside.lstrip("/").replace("/", "\\"), "t/../" + "secret", "..\\secret"):
+            # ... and white space around the separators and the dots (what a guard sees and what the file system is asked must agree)
+            ws_leads = ("", " ", "\t", "/ ", "// ", "\\ ", " /", "/\t")
+            ws_tails = (" ../secret", "../secret", ".. /secret", "\t..\\secret", " ..\\secret", "../ secret", " ../../" + outside.lstrip("/"))
+            for lead in ("/", "\\", "\\/", "/\\", "/\\/", "\\\\/", "//\\/", "\\/\\/", "\\//") + ws_leads:
+                for tail in (outside.lstrip("/"), outside.lstrip("/").replace("/", "\\"), "t/../" + "secret", "..\\secret") + (ws_tails if lead in ws_leads else ()):
                     uri = lead + tail
                     n += 1
                     del opened[:]
